@@ -1711,7 +1711,8 @@ class INTEGER(DataOperation):
         vm.dc += 1
 
     def assemble(self):
-        return bytes([self.args[0] & 0xFF00, self.args[0] & 0xFF])
+        value = to_u16(self.args[0])
+        return bytes([value >> 8, value & 0xFF])
 
 
 class DSKIP(DataOperation):
@@ -1753,11 +1754,11 @@ class LP_STRING(DataOperation):
 
     def assemble(self):
         s = self.args[0]
-        length_bytes = [len(s) & 0xFF00, len(s) & 0xFF]
+        length_bytes = [(len(s) >> 8) & 0xFF, len(s) & 0xFF]
         data_bytes = []
         for c in s:
-            data_bytes.append(0)
-            data_bytes.append(ord(c))
+            data_bytes.append((ord(c) >> 8) & 0xFF)
+            data_bytes.append(ord(c) & 0xFF)
         return bytes(length_bytes + data_bytes)
 
 
